@@ -365,6 +365,7 @@ P = {
     "C28.b": "each raise site passes line, col and filename of the owner",
     "C28.g": "by evaluation of TextXModelParser._parse with the exception classes of textx/exceptions.py interpreted: a NoMatch becomes a TextXSyntaxError carrying the NoMatch's message, line, col, context, expected rules and the file name of the parser that reported it (the attributes are read after eval_attrs()); a successful parse returns the tree",
     "C28.h": "by evaluation of the driver parse_tree_to_objgraph (recording stand-ins for the tree walkers, resolver class, loaders and cleanup functions; _start/_end_model_construction interpreted) on 9 load scenarios: the 'Unresolvable cross references' error names every unresolved reference with its class and is located (line, col, file) at one of them, converted by the parser of the model that contains it",
+    "C28.i": "by evaluation of TextXError.__str__ (and its subclasses, classes of exceptions.py interpreted): an error prints as file:line:col: message [=> 'context'] as soon as any of line, col, file name is known, as the bare message otherwise",
     "C28.c": "the location fields of one raise are assigned in the same loop iteration; by evaluation of the unresolved-reference branch: line, col and filename of the error belong to one and the same reference",
     "C28.d": "the resolver fills a provider error's location only where it has none",
     "C28.e": "every scope-provider call of the resolver (attached, registered or default provider) lies inside the try whose TextXError handler fills line, col and filename from the reference and re-raises",
